@@ -284,6 +284,9 @@ func holds(m matchSpec, req request, port int, rd reading) bool {
 		}
 	}
 	for name, s := range m.Headers {
+		if reservedHeaderKey(name) {
+			continue // "The keys uri, scheme, method, and authority will be ignored."
+		}
 		v, ok := req.Headers[name]
 		if !ok || !matchString(s, v) {
 			return false
